@@ -2651,6 +2651,9 @@ func (s *Server) serveConnCounted(c net.Conn, countConcurrency bool) error {
 		ctx.time = time.Now()
 
 		// If a client denies a request the handler should not be called
+		// Remember this before the handler runs: after a timeout the request
+		// stays behind with the handler that is still using it.
+		isHeadRequest := ctx.IsHead()
 		if continueReadingRequest {
 			s.Handler(ctx)
 		}
@@ -2660,6 +2663,10 @@ func (s *Server) serveConnCounted(c net.Conn, countConcurrency bool) error {
 			// Acquire a new ctx because the old one will still be in use by the timeout out handler.
 			ctx = s.acquireCtx(c)
 			timeoutResponse.CopyTo(&ctx.Response)
+			if isHeadRequest {
+				// the fresh ctx has an empty request, so IsHead() below is false
+				ctx.Response.SkipBody = true
+			}
 		}
 
 		if ctx.IsHead() {
